@@ -182,24 +182,60 @@ def check(ctx):
             bad.append((f, n))
     ctx.ob('C09.R3.root-writers', '_root_moves', not bad,
            'the root list is written only by the constructor', site=bad[0][0].loc(bad[0][1]) if bad else ctor.loc())
-    # root node iterates the root list
-    ok = False
+    # root node iterates the root list: every definition of the node's move range, by the case it is made in
+    from rules.common import all_guards
+
+    def is_root_test(c_):
+        """(is a test of ply == 0, polarity) for a condition node"""
+        c_ = strip_casts(c_)
+        neg = False
+        while c_['k'] == 'UnaryOperator' and c_.get('op') == '!':
+            neg = not neg
+            c_ = strip_casts(kids(c_)[0])
+        r_ = c_.get('ref') or {}
+        if r_.get('k') == 'Local':
+            for d in s.all_nodes():
+                if d['k'] == 'VarDecl' and d.get('id') == r_['id'] and kids(d):
+                    c_ = strip_casts(kids(d)[0])
+        if c_['k'] == 'BinaryOperator' and c_.get('op') in ('==', '!=') and \
+                short(strip_casts(kids(c_)[0]).get('ref', {}).get('n', '')) == '_ply' and const_of(strip_casts(kids(c_)[1])) == 0:
+            return True, (c_['op'] == '==') != neg
+        return False, None
+
+    def mentions_root(e_):
+        return any(x.get('ref', {}).get('n') == 'engine::Search::_root_moves' for x in walk(e_)) or \
+            any((x.get('ref') or {}).get('k') == 'Local' and (x.get('ref') or {}).get('n') == 'begin' and False for x in walk(e_))
+    defs = []
     for n in s.all_nodes():
-        if n['k'] == 'VarDecl' and n.get('name') == 'begin' and kids(n):
-            e = strip_casts(kids(n)[0])
-            if e['k'] == 'ConditionalOperator':
-                cnd, t, f_ = kids(e)
-                cnd = strip_casts(cnd)
-                uses_root = any(x.get('ref', {}).get('n') == 'engine::Search::_root_moves' for x in walk(t))
-                other_root = any(x.get('ref', {}).get('n') == 'engine::Search::_root_moves' for x in walk(f_))
-                rn = None
-                for d in s.all_nodes():
-                    if d['k'] == 'VarDecl' and d.get('id') == cnd.get('ref', {}).get('id') and kids(d):
-                        rn = strip_casts(kids(d)[0])
-                is_root = rn is not None and rn['k'] == 'BinaryOperator' and rn.get('op') == '==' and \
-                    short(strip_casts(kids(rn)[0]).get('ref', {}).get('n', '')) == '_ply' and \
-                    const_of(strip_casts(kids(rn)[1])) == 0
-                ok = uses_root and not other_root and is_root
+        if n['k'] == 'VarDecl' and n.get('name') in ('begin', 'end') and kids(n):
+            defs.append((n['name'], kids(n)[0], n))
+        if n['k'] == 'BinaryOperator' and n.get('op') == '=' and (strip_casts(kids(n)[0]).get('ref') or {}).get('n') in ('begin', 'end') and \
+                (strip_casts(kids(n)[0]).get('ref') or {}).get('k') == 'Local':
+            defs.append((strip_casts(kids(n)[0])['ref']['n'], kids(n)[1], n))
+    ok = bool(defs)
+    seen_root = {'begin': False, 'end': False}
+    for name_, e_, site_ in defs:
+        e0 = strip_casts(e_)
+        arms_ = []
+        if e0['k'] == 'ConditionalOperator' and is_root_test(kids(e0)[0])[0]:
+            pol = is_root_test(kids(e0)[0])[1]
+            arms_ = [(kids(e0)[1], pol), (kids(e0)[2], not pol)]
+        else:
+            root = None
+            for c_, t_ in all_guards(s, site_):
+                isr, pol = is_root_test(c_)
+                if isr:
+                    root = (pol == t_)
+            arms_ = [(e_, root)]
+        for ex_, root in arms_:
+            uses = mentions_root(ex_) or (name_ == 'end' and root and any((x.get('ref') or {}).get('n') == 'begin' for x in walk(ex_)) and
+                                          any((x.get('callee') or {}).get('n', '').endswith('::size') and mentions_root(x) for x in walk(ex_)))
+            if root is True:
+                seen_root[name_] = True
+                ok = ok and uses
+            else:
+                ok = ok and not mentions_root(ex_)
+    ok = ok and all(seen_root.values())
     ctx.ob('C09.R3.root-iterates-root-list', 'search', ok,
            'at ply 0 the node iterates Search::_root_moves (and only there)', site=s.loc())
 
